@@ -48,7 +48,8 @@ def install(eng):
     from replay import enum_ops
     OPS = [k for k in eng.contracts if k.startswith(("gwf.backends.slurm:", "gwf.backends.sge:", "gwf.backends.lsf:",
                                                      "gwf.backends.utils:"))]
-    eng.enumerator("ops-command-lines", ["C07", "C17"], OPS + BACKEND, enum_ops.run([enum_ops.check_submit]), always=True)
+    eng.enumerator("ops-command-lines", ["C07"], OPS + BACKEND, enum_ops.run([enum_ops.check_submit]), always=True)
+    eng.enumerator("ops-command-lines-on-failure", ["C17"], OPS + BACKEND, enum_ops.run([enum_ops.check_submit]))
     eng.enumerator("ops-state-tables", ["C08"], OPS + BACKEND, enum_ops.run([enum_ops.check_states]), always=True)
     # C10: compile_script has no unbounded contract (order of option lines): this bounded stand-in decides that clause
     eng.enumerator("job-scripts-under-bash", ["C10"], OPS, enum_ops.run([enum_ops.check_scripts]), always=True)
